@@ -29,10 +29,12 @@ MirX == << <<RI(-1), Zero, Zero>>, <<Zero, One, Zero>>, <<Zero, Zero, One>> >>
 MirY == << <<One, Zero, Zero>>, <<Zero, RI(-1), Zero>>, <<Zero, Zero, One>> >>
 
 (* a motion x -> L (x - c) + c + t *)
-Lin(mv) == CASE mv = "translate" -> I3 [] mv = "rotz" -> RotZ [] mv = "rotx" -> RotX [] mv = "mirx" -> MirX [] mv = "miry" -> MirY
-Cen(mv) == CASE mv = "translate" -> O3 [] mv = "rotz" -> <<One, Half, Zero>> [] mv = "rotx" -> <<Zero, One, Half>> [] mv = "mirx" -> <<Half, Zero, Zero>> [] mv = "miry" -> <<Zero, RI(-1), Zero>>
-Tra(mv) == IF mv = "translate" THEN <<R(3, 2), RI(-1), Half>> ELSE O3
-InPlane(mv) == mv \in {"rotz", "mirx", "miry"} \/ mv = "translate2"
+Lin(mv) == CASE mv = "translate" -> I3 [] mv = "far" -> I3 [] mv = "rotz" -> RotZ [] mv = "rotx" -> RotX [] mv = "mirx" -> MirX [] mv = "miry" -> MirY
+Cen(mv) == CASE mv = "translate" -> O3 [] mv = "far" -> O3 [] mv = "rotz" -> <<One, Half, Zero>> [] mv = "rotx" -> <<Zero, One, Half>> [] mv = "mirx" -> <<Half, Zero, Zero>> [] mv = "miry" -> <<Zero, RI(-1), Zero>>
+(* "far": a translation by 100 000 in the plane - a rigid motion like any other; round-off on the moved points is then 1e-11, *)
+(* so whatever the code compares with an absolute threshold near 1e-12 shows up                                              *)
+Tra(mv) == IF mv = "translate" THEN <<R(3, 2), RI(-1), Half>> ELSE IF mv = "far" THEN <<RI(100000), RI(100000), Zero>> ELSE O3
+InPlane(mv) == mv \in {"rotz", "mirx", "miry", "far"} \/ mv = "translate2"
 
 Init == A = I3 /\ b = O3 /\ moves = <<>>
 Move(mv) ==
